@@ -82,6 +82,9 @@ def _mk_driver(pairs):
             cfg["xshape"] = ch.choose("gn.xshape", M.GN_XSHAPE)
             cfg["scale_src"] = ch.choose("gn.scale_src", M.GN_SCALE_SRC)
         spec = {"op": op, "s": s, "place": place, "inits": inits, "cfg": cfg}
+        names = ch.choose("names", M.NAMES)
+        if names != "plain":
+            spec["names"] = names
         if not M.valid_spec(spec):
             raise explore.Prune()
         return {"spec": spec, "t": t, "sub": [entry, api, fb]}
